@@ -569,11 +569,19 @@ func (b *BaseStore) Load(ctx context.Context, amount int) error {
 		// keep receiving until the channel is closed (when every head has been
 		// handled): the fetcher blocks on every entry it reports, so leaving
 		// early, e.g. when ctx is cancelled, would leave it stuck for ever
+		reported := map[cid.Cid]struct{}{}
 		for entry := range progress {
 			if entry == nil {
 				// should not happen
 				continue
 			}
+
+			// a head may be fetched in several rounds, and two heads lead to the
+			// same entries: an entry is reported once per Load
+			if _, ok := reported[entry.GetHash()]; ok {
+				continue
+			}
+			reported[entry.GetHash()] = struct{}{}
 
 			b.recalculateReplicationStatus(entry.GetClock().GetTime())
 			evt := stores.NewEventLoadProgress(b.Address(), entry.GetHash(), entry, b.replicationStatus.GetProgress(), b.replicationStatus.GetMax())
@@ -605,6 +613,10 @@ func (b *BaseStore) Load(ctx context.Context, amount int) error {
 				own   []ipfslog.Entry
 			)
 
+			// what lies behind an entry of another log is of no interest: the next
+			// round does not walk through it again
+			foreign := map[cid.Cid]struct{}{}
+
 			fetchLength := amount
 			for {
 				l, inErr = ipfslog.NewFromEntryHash(ctx, b.IPFS(), b.Identity(), h.GetHash(), &ipfslog.LogOptions{
@@ -616,6 +628,10 @@ func (b *BaseStore) Load(ctx context.Context, amount int) error {
 					Length:       &fetchLength,
 					Exclude:      oplog.GetEntries().Slice(),
 					ProgressChan: progress,
+					ShouldExclude: func(c cid.Cid) bool {
+						_, ok := foreign[c]
+						return ok && !c.Equals(h.GetHash())
+					},
 				})
 
 				if inErr != nil {
@@ -651,6 +667,7 @@ func (b *BaseStore) Load(ctx context.Context, amount int) error {
 				refused := 0
 				for _, e := range l.GetEntries().Slice() {
 					if e.GetLogID() != oplog.GetID() {
+						foreign[e.GetHash()] = struct{}{}
 						refused++
 						continue
 					}
